@@ -5,6 +5,7 @@ Model: `Sb/Model/Crc.lean` (table loop, chunked file loop), `Sb/Model/Container.
 Spec : `Sb/Spec/Crc.lean` (bit-serial reflected CRC-32, poly 0x04C11DB7, init 0, no final xor).
 -/
 import Sb.Proofs.CrcLinear
+import Sb.Proofs.CrcWindow
 import Sb.Model.Container
 
 namespace Sb.C05
@@ -113,6 +114,36 @@ theorem crc_of_corrupted (m e : Bytes) (h : m.length = e.length) :
   have := crc_linear m e h 0 0
   simpa using this
 
+/-- **Any alteration confined to (at most) four consecutive bytes lying entirely after the checksum field of an
+accepted file is reported as corrupted**, on both loading routes, for every file length and every position of the
+window (`pre` is everything between the field and the window) -/
+theorem detect_window_after_field (mem : Bool) (feat c0 c1 c2 c3 : UInt8) (pre w w' post : Bytes)
+    (hf : feat.toNat &&& Gen.SB_BINARY_FEATURE_CRC32 ≠ 0)
+    (hlen : w.length ≤ 4) (hsame : w'.length = w.length) (hne : w ≠ w')
+    (hacc : init mem ([0x73, 0x6b, 0x79, 0x62, 2, feat, c0, c1, c2, c3] ++ (pre ++ w ++ post)) ≠ .error .ecorrupted) :
+    init mem ([0x73, 0x6b, 0x79, 0x62, 2, feat, c0, c1, c2, c3] ++ (pre ++ w' ++ post)) = .error .ecorrupted := by
+  rw [accept_rule mem feat c0 c1 c2 c3 _ hf]
+  rw [Ne, accept_rule mem feat c0 c1 c2 c3 _ hf, Ne, Classical.not_not] at hacc
+  rw [hacc]
+  have h1 : Spec.fileCrc ([0x73, 0x6b, 0x79, 0x62, 2, feat, c0, c1, c2, c3] ++ (pre ++ w ++ post))
+      = Spec.crc 0 (([0x73, 0x6b, 0x79, 0x62, 2, feat, 0, 0, 0, 0] ++ pre) ++ w ++ post) := by
+    unfold Spec.fileCrc zeroCrcField
+    simp
+  have h2 : Spec.fileCrc ([0x73, 0x6b, 0x79, 0x62, 2, feat, c0, c1, c2, c3] ++ (pre ++ w' ++ post))
+      = Spec.crc 0 (([0x73, 0x6b, 0x79, 0x62, 2, feat, 0, 0, 0, 0] ++ pre) ++ w' ++ post) := by
+    unfold Spec.fileCrc zeroCrcField
+    simp
+  rw [h1, h2]
+  exact crc_window_changes 0 _ w w' post hlen hsame hne
+
+/-- in particular every single-bit flip and every two-bit flip within four consecutive bytes after the field is
+detected: they are alterations of a window of at most four bytes -/
+theorem detect_byte_after_field (mem : Bool) (feat c0 c1 c2 c3 : UInt8) (pre post : Bytes) (b b' : UInt8)
+    (hf : feat.toNat &&& Gen.SB_BINARY_FEATURE_CRC32 ≠ 0) (hne : b ≠ b')
+    (hacc : init mem ([0x73, 0x6b, 0x79, 0x62, 2, feat, c0, c1, c2, c3] ++ (pre ++ [b] ++ post)) ≠ .error .ecorrupted) :
+    init mem ([0x73, 0x6b, 0x79, 0x62, 2, feat, c0, c1, c2, c3] ++ (pre ++ [b'] ++ post)) = .error .ecorrupted :=
+  detect_window_after_field mem feat c0 c1 c2 c3 pre [b] [b'] post hf (by simp) rfl (by simpa using hne) hacc
+
 /-! ### non-vacuity -/
 
 /-- a concrete checksummed file (header + one comment block `03 01 00 41`) whose stored value
@@ -126,5 +157,11 @@ example : init false ([0x73, 0x6b, 0x79, 0x62, 2, 1, 95, 23, 77, 207] ++ [3, 1, 
   · rw [Ne, accept_rule false 1 94 23 77 207 [3, 1, 0, 0x41] (by decide), Ne, Classical.not_not]
     decide +kernel
   · decide
+
+/-- the accepted example file with its last byte altered is reported as corrupted (window theorem instantiated) -/
+example : init true ([0x73, 0x6b, 0x79, 0x62, 2, 1, 94, 23, 77, 207] ++ ([3, 1, 0] ++ [0x42] ++ [])) = .error .ecorrupted := by
+  apply detect_byte_after_field true 1 94 23 77 207 [3, 1, 0] [] 0x41 0x42 (by decide) (by decide)
+  rw [Ne, accept_rule true 1 94 23 77 207 _ (by decide), Ne, Classical.not_not]
+  decide +kernel
 
 end Sb.C05
